@@ -31,6 +31,7 @@ THEOREMS = [
     'IblVerif.C04.not_np2_or_split_untouched',
     'IblVerif.C04.rerun_partial_folders_counterexample',
     'IblVerif.C04.rerun_after_delete_noop',
+    'IblVerif.C04.np21_trailing_compress_counterexample',
 ]
 RULE = ('histories of 1..4 (thorough: ..5) calls, each either NP2Converter(file, post_check, delete_original, compress).process(overwrite) on a new '
         'object or (about half of the calls after the first) process(overwrite) once more on the SAME object, on a tiny '
@@ -82,6 +83,19 @@ NCH = 385
 RATIO = 12
 
 
+# input forms of one call (the same mathematical call, spelled differently): path as Path / str; constructor options by
+# keyword / positionally in the signature order (ap_file, post_check, delete_original, compress); init_params by keyword /
+# positionally (nsamples, nwindow, …); the window size as Python int / np.int64 / np.int32 / Python float / np.float64 /
+# a float expression like the test-suite's 0.3 * FS; process(overwrite) by keyword / positionally
+DEFAULT_FORM = 'Pkkik'
+WINDOW_FORMS = {'i': int, 'I': np.int64, 'j': np.int32, 'f': float, 'F': np.float64, 'x': lambda w: (w / 30000) * 30000}
+FORM_CHOICES = ['Ps', 'kp', 'kp', 'iIjfFx', 'kp']
+
+
+def gen_form(rng):
+    return ''.join(c[int(rng.integers(0, len(c)))] for c in FORM_CHOICES)
+
+
 class Injected(Exception):
     """the environment's exception"""
 
@@ -103,8 +117,11 @@ class Rec:
     """One tiny recording + everything expected of its conversion."""
     _cache = {}
 
-    def __init__(self, kind, n, ns, w, ov, seed=0):
-        self.kind, self.n, self.ns, self.w, self.ov = kind, n, ns, w, ov
+    def __init__(self, kind, n, ns, w, ov, hdr=None, trail=0, seed=0):
+        """ns: complete frames on disk; hdr: frames the .meta announces (fileSizeBytes / fileTimeSecs; default ns);
+        trail: bytes of a partial frame after the last complete one (original .bin only)"""
+        hdr = ns if hdr is None else hdr
+        self.kind, self.n, self.ns, self.w, self.ov, self.hdr, self.trail = kind, n, ns, w, ov, hdr, trail
         folder = {'np24': 'NP24_meta', 'np21': 'NP21_meta', 'np1': 'NP1_meta'}[kind]
         text = (FX / folder / f'{STEM}.ap.meta').read_text()
         if kind == 'np24':   # fold the four shanks of the fixture onto n shanks
@@ -113,15 +130,17 @@ class Rec:
             head, body = re.search(r'^(~?snsShankMap=\([^)]*\))(.*)$', text, re.M).groups()
             text = text.replace(head + body, head + re.sub(r'\((\d+):(\d+:\d+:\d+)\)', fold, body))
         fs = float(re.search(r'^imSampRate=(.*)$', text, re.M).group(1))
-        text = re.sub(r'^fileSizeBytes=.*$', f'fileSizeBytes={ns * NCH * 2}', text, flags=re.M)
-        text = re.sub(r'^fileTimeSecs=.*$', f'fileTimeSecs={ns / fs!r}', text, flags=re.M)
+        text = re.sub(r'^fileSizeBytes=.*$', f'fileSizeBytes={hdr * NCH * 2}', text, flags=re.M)
+        text = re.sub(r'^fileTimeSecs=.*$', f'fileTimeSecs={hdr / fs!r}', text, flags=re.M)
         self.meta_text = text
         rng = np.random.default_rng([seed, ns, n])
         dat = rng.integers(-300, 300, size=(ns, NCH)).astype(np.int16)
         dat[:, -1] = (rng.integers(0, 2, size=ns) * 64).astype(np.int16)
         self.data = dat
-        self.bytes = dat.tobytes()
+        self.bytes = dat.tobytes()                      # the samples: complete frames
+        self.disk_bytes = self.bytes + bytes((i * 37 + 1) % 256 for i in range(trail))     # what the original .bin holds
         self.sha = hashlib.sha1(self.bytes).hexdigest()
+        self.disk_sha = hashlib.sha1(self.disk_bytes).hexdigest()
         sh = _shank_of_channels(text)
         self.chns = [np.r_[np.where(sh == i)[0], NCH - 1] for i in range(n)] if kind == 'np24' else [np.arange(NCH)]
         self.ap_expected = [dat[:, c].tobytes() for c in self.chns]
@@ -129,11 +148,15 @@ class Rec:
         self._ref = None
 
     @classmethod
-    def get(cls, kind, n, ns, w, ov):
-        key = (kind, n, ns, w, ov)
+    def get(cls, kind, n, ns, w, ov, hdr=None, trail=0):
+        key = (kind, n, ns, w, ov, ns if hdr is None else hdr, trail)
         if key not in cls._cache:
-            cls._cache[key] = cls(kind, n, ns, w, ov)
+            cls._cache[key] = cls(kind, n, ns, w, ov, hdr, trail)
         return cls._cache[key]
+
+    @classmethod
+    def of(cls, cfg):
+        return cls.get(cfg['kind'], cfg['n'], cfg['ns'], cfg['w'], cfg['ov'], cfg.get('hdr'), cfg.get('trail', 0))
 
     # sizes of partially written files (own derivation: window k keeps [first + ov/2, first + w - ov/2), first window from 0)
     def nwin(self):
@@ -181,7 +204,7 @@ class Rec:
         d.mkdir(parents=True)
         (d / f'{STEM}.ap.meta').write_text(self.meta_text)
         if orig == 'bin':
-            (d / f'{STEM}.ap.bin').write_bytes(self.bytes)
+            (d / f'{STEM}.ap.bin').write_bytes(self.disk_bytes)
         else:
             cb, ch = self.cbin_files()
             (d / f'{STEM}.ap.cbin').write_bytes(cb)
@@ -193,7 +216,7 @@ class Rec:
             root = Path(tempfile.mkdtemp(prefix='c04r_'))
             try:
                 self.materialise(root, 'bin')
-                call = dict(pc=0, cp=0, dl=0, ow=0, sh=0, int=None, cor=None)
+                call = dict(pc=0, cp=0, dl=0, ow=0, sh=0, int=None, cor=None, form=None)
                 res = do_call(root, self, call)
                 ref = {'result': res, 'lf': {}, 'meta': {}}
                 for i, d in enumerate(self.out_dirs(root)):
@@ -325,20 +348,36 @@ def do_call(root, rec, call, holder=None):
                     _close_all(old)
                     del old
                     gc.collect()
+                form = call.get('form') or DEFAULT_FORM
+                f = target_file(root, call)
+                f = str(f) if form[0] == 's' else f
                 try:
-                    conv = neuropixel.NP2Converter(target_file(root, call), post_check=bool(call['pc']),
-                                                   delete_original=bool(call['dl']), compress=bool(call['cp']))
+                    if form[1] == 'p':      # positional, in the order of the documented signature
+                        conv = neuropixel.NP2Converter(f, bool(call['pc']), bool(call['dl']), bool(call['cp']))
+                    else:
+                        conv = neuropixel.NP2Converter(f, post_check=bool(call['pc']), delete_original=bool(call['dl']),
+                                                       compress=bool(call['cp']))
                 except FileNotFoundError:
                     return 'raise:noOriginal'
-                conv.init_params(nwindow=rec.w)
+                w = WINDOW_FORMS[form[3]](rec.w)
+                if form[2] == 'p':          # init_params(nsamples, nwindow, extra, nshank)
+                    conv.init_params(None, w)
+                else:
+                    conv.init_params(nwindow=w)
                 holder['conv'] = conv
             try:
-                st = conv.process(overwrite=bool(call['ow']))
+                if (call.get('form') or DEFAULT_FORM)[4] == 'p':
+                    st = conv.process(bool(call['ow']))
+                else:
+                    st = conv.process(overwrite=bool(call['ow']))
                 res = f'ret{int(st)}'
             except Injected:
                 res = 'raise:injected'
             except DeadReader:
                 res = 'raise:crash'
+            except ValueError as e:
+                res = 'raise:valueError' if 'is incompatible with the specified parameters' in str(e) \
+                    else f'raise:ValueError({str(e).replace(str(root), "<root>")[:80]})'
             except AssertionError as e:
                 res = 'raise:assertion' if 'do no match' in str(e) else f'raise:AssertionError({str(e)[:60]})'
             except FileNotFoundError as e:
@@ -444,7 +483,7 @@ def abstract(root, rec):
     if ob.exists() and oc.exists():
         o = 'both'
     elif ob.exists():
-        o = 'bin' if hashlib.sha1(ob.read_bytes()).hexdigest() == rec.sha else 'binALTERED'
+        o = 'bin' if hashlib.sha1(ob.read_bytes()).hexdigest() == rec.disk_sha else 'binALTERED'
     elif oc.exists():
         try:
             o = 'cbin' if och.exists() and hashlib.sha1(_decode_cbin(oc, och)).hexdigest() == rec.sha else 'cbinALTERED'
@@ -536,7 +575,7 @@ def recoverable(root, rec):
     if not mp.exists() or mp.read_text() != rec.meta_text:
         return 'the original metadata file was altered or removed'
     if ob.exists():
-        if hashlib.sha1(ob.read_bytes()).hexdigest() == rec.sha:
+        if hashlib.sha1(ob.read_bytes()).hexdigest() == rec.disk_sha:
             return None
         return 'the original .bin is present with other bytes'
     if oc.exists() and och.exists():
@@ -682,6 +721,8 @@ def oracle_step(root, rec, call, pre, res):
             diff = sorted(set(snap.items()) ^ set(pre['snap'].items()))
             return f'repeated run without overwrite changed the disk: {[k for k, _ in diff][:4]}'
         return None
+    if rec.kind == 'np21' and rec.trail and call['cp'] and pre['orig_bin'] and res == 'raise:valueError':
+        return None     # known finding np21-trailing-bytes-compress: mtscomp refuses an original that ends with a partial frame
     if not effective_fault(rec, call) and (call['ow'] or pre['no_output']):
         if res != 'ret1':
             return f'{"forced re-run" if call["ow"] else "first run"} without any fault ended with {res}, expected status 1'
@@ -695,7 +736,8 @@ def oracle_step(root, rec, call, pre, res):
 
 
 def facts_before(root, rec):
-    return {'orig_present': orig_present(root), 'output_exists': output_exists(root, rec), 'no_output': no_output(root, rec),
+    return {'orig_present': orig_present(root), 'orig_bin': (root / 'probe00' / f'{STEM}.ap.bin').exists(),
+            'output_exists': output_exists(root, rec), 'no_output': no_output(root, rec),
             'snap': snapshot(root)}
 
 
@@ -705,13 +747,14 @@ def facts_before(root, rec):
 def call_token(c):
     i = c['int']
     it = '-' if i is None else ('d' if i[0] == 'd' else f'{i[0]}{i[1]}')
-    return f"{c['pc']}{c['cp']}{c['dl']}{c['ow']}{c['sh']}{c.get('ru', 0)}:{it}:{'-' if c['cor'] is None else '%d@%d' % c['cor']}"
+    tok = f"{c['pc']}{c['cp']}{c['dl']}{c['ow']}{c['sh']}{c.get('ru', 0)}:{it}:{'-' if c['cor'] is None else '%d@%d' % c['cor']}"
+    return tok + (':' + c['form'] if c.get('form') and c['form'] != DEFAULT_FORM else '')
 
 
 def lean_call_token(rec, c):
     """the same call for the model: the altered sample is named by (shank, processing window that keeps its row,
     verification window that reads it) -- own derivation of the two window indices from the row"""
-    tok = call_token(c)
+    tok = ':'.join(call_token(c).split(':')[:3])     # the form of a call is not an input of the model
     if c['cor'] is None:
         return tok
     sh, row = c['cor']
@@ -719,13 +762,20 @@ def lean_call_token(rec, c):
 
 
 def parse_call(tok):
-    b, i, c = tok.split(':')
+    parts = tok.split(':')
+    b, i, c = parts[:3]
+    form = parts[3] if len(parts) > 3 else None
     it = None if i == '-' else (('d',) if i == 'd' else (i[0], int(i[1:])))
-    return dict(pc=int(b[0]), cp=int(b[1]), dl=int(b[2]), ow=int(b[3]), sh=int(b[4]), ru=int(b[5]) if len(b) > 5 else 0, int=it, cor=None if c == '-' else tuple(int(x) for x in c.split('@')))
+    return dict(pc=int(b[0]), cp=int(b[1]), dl=int(b[2]), ow=int(b[3]), sh=int(b[4]), ru=int(b[5]) if len(b) > 5 else 0, int=it, cor=None if c == '-' else tuple(int(x) for x in c.split('@')), form=form)
 
 
 def cfg_tokens(cfg):
-    return f"{cfg['kind']} {cfg['n']} {cfg['ns']} {cfg['w']} {cfg['ov']} {cfg['orig']}"
+    ns = str(cfg['ns'])
+    if cfg.get('hdr') is not None and cfg['hdr'] != cfg['ns']:
+        ns += f"h{cfg['hdr']}"
+    if cfg.get('trail'):
+        ns += 't'
+    return f"{cfg['kind']} {cfg['n']} {ns} {cfg['w']} {cfg['ov']} {cfg['orig']}"
 
 
 def target_complete(state_tok):
@@ -785,6 +835,7 @@ def gen_call(rng, rec, state_tok, holder=None):
         if target_complete(state_tok) and rng.random() < 0.12:
             c['sh'] = 1
     c['ru'] = 0
+    c['form'] = gen_form(rng) if rng.random() < 0.6 else None
     if holder is not None and holder.get('conv') is not None and rng.random() < 0.5:
         # the same converter object once more (its own options)
         c['ru'] = 1
@@ -844,7 +895,15 @@ def gen_cfg(rng, ov):
     ns, w = CONFIGS_NS[int(rng.integers(0, len(CONFIGS_NS)))]
     if kind == 'np24' and rng.random() < 0.4:       # spans >= 3 verification windows
         ns, w = [(2500, 1200), (3000, 1200), (3700, 1200)][int(rng.integers(0, 3))]
-    return dict(kind=kind, n=n, ns=ns, w=w, ov=ov, orig='bin' if rng.random() < 0.7 else 'cbin')
+    cfg = dict(kind=kind, n=n, ns=ns, w=w, ov=ov, orig='bin' if rng.random() < 0.7 else 'cbin')
+    r = rng.random()
+    if r < 0.18:        # header not finalised: the binary holds MORE frames than the .meta announces
+        cfg['hdr'] = [ns - 300, ns * 4 // 5, max(ns // 2, 100), max(ns - 1, 1)][int(rng.integers(0, 4))]
+    elif r < 0.28:      # the binary holds FEWER frames than announced (interrupted copy)
+        cfg['hdr'] = ns + [1, 300, ns][int(rng.integers(0, 3))]
+    if cfg['orig'] == 'bin' and rng.random() < 0.12:     # trailing partial frame
+        cfg['trail'] = [1, 77, 769][int(rng.integers(0, 3))]
+    return cfg
 
 
 def _tags(cfg, calls, toks):
@@ -852,12 +911,22 @@ def _tags(cfg, calls, toks):
     toks = [x.split('#')[0] for x in toks]
     if '@' in cfg['orig']:
         tags.append('partial-folders(known finding)')
+    hdr = cfg.get('hdr')
+    tags.append('header=' + ('consistent' if hdr is None or hdr == cfg['ns'] else 'announces-fewer-frames' if hdr < cfg['ns']
+                             else 'announces-more-frames'))
+    if cfg.get('trail'):
+        tags.append('trailing-partial-frame')
     prev_state = None
     prev_res = None
     for c, t in zip(calls, toks):
         res, st = t.split('@', 1)
         tags.append('res=' + res.split('(')[0])
         tags.append('same-object' if c.get('ru') else 'fresh-object')
+        fm = c.get('form') or DEFAULT_FORM
+        if not c.get('ru'):
+            tags += ['path=' + ('str' if fm[0] == 's' else 'Path'), 'ctor=' + ('positional' if fm[1] == 'p' else 'keyword'),
+                     'window=' + {'i': 'int', 'I': 'np.int64', 'j': 'np.int32', 'f': 'float', 'F': 'np.float64', 'x': 'float-expr'}[fm[3]]]
+        tags.append('process=' + ('positional' if fm[4] == 'p' else 'keyword'))
         if c.get('ru') and st.startswith('o=absent') and prev_state is not None and prev_state.startswith('o=absent'):
             tags.append('same-object-after-its-delete' + ('-forced' if c['ow'] else ''))
         if c.get('ru') and c['ow']:
@@ -913,33 +982,38 @@ def correspondence(ctx):
     _check_constants(ctx, ov)
     rng = ctx.rng
     hist = []     # (cfg, calls, toks, verdicts)
-    t_end = time.time() + ctx.n(50, 300)
+    t_start = time.time()
     nh = ctx.n(100, 600)
     maxlen = ctx.n(4, 5)
     # a fixed set of staple histories first (the suite's own history and the ones the property names)
-    for cfg, cl in staple_histories(ov):
-        rec = Rec.get(cfg['kind'], cfg['n'], cfg['ns'], cfg['w'], cfg['ov'])
+    staples = staple_histories(ov)
+    if ctx.quick:       # the core staples every time, a seeded half of the others (thorough: all)
+        keep = ctx.subrng(404).random(len(staples)) < 0.4
+        staples = [s for s, k in zip(staples, keep) if k or _is_core(*s)]
+    for cfg, cl in staples:
+        rec = Rec.of(cfg)
         calls, toks, ver = run_history(rec, cfg['orig'], calls=[parse_call(c) for c in cl])
         hist.append((cfg, calls, toks, ver))
     if not ctx.quick:
         for cfg, cl in exhaustive_single_calls(ov):
-            rec = Rec.get(cfg['kind'], cfg['n'], cfg['ns'], cfg['w'], cfg['ov'])
+            rec = Rec.of(cfg)
             calls, toks, ver = run_history(rec, cfg['orig'], calls=[parse_call(c) for c in cl])
             hist.append((cfg, calls, toks, ver))
         ctx.note('thorough: every single call (8 option triples x overwrite x every interruption point and index, plus an '
                  'unfaithful split) was run from the fresh state and from the completed compressed / uncompressed state of one '
                  'configuration per kind')
     done = 0
+    t_end = max(t_start + ctx.n(62, 420), time.time() + ctx.n(25, 200))
     while done < nh and time.time() < t_end:
         cfg = gen_cfg(rng, ov)
-        rec = Rec.get(cfg['kind'], cfg['n'], cfg['ns'], cfg['w'], cfg['ov'])
+        rec = Rec.of(cfg)
         length = int(rng.integers(1, maxlen + 1)) if rng.random() < 0.3 else maxlen - int(rng.integers(0, 2))
         calls, toks, ver = run_history(rec, cfg['orig'], rng=rng, length=length)
         hist.append((cfg, calls, toks, ver))
         done += 1
     ctx.note(f'{len(hist)} histories, {sum(len(h[1]) for h in hist)} calls executed on the real code')
     lines = ['hist ' + cfg_tokens(cfg) + ' ' +
-             ' '.join(lean_call_token(Rec.get(cfg['kind'], cfg['n'], cfg['ns'], cfg['w'], cfg['ov']), c) for c in calls)
+             ' '.join(lean_call_token(Rec.of(cfg), c) for c in calls)
              for cfg, calls, _, _ in hist]
     answers = ctx.lean(lines)
     nviol = 0
@@ -964,6 +1038,16 @@ def correspondence(ctx):
         cm.append({'op': 'counts', 'ns': ns, 'w': w, 'ov': ov})
     for d, a, b in zip(cm, ci, ctx.lean(cl)):
         ctx.compare('counts', d, a, b, nontrivial=True, tags=('counts',))
+
+
+def _is_core(cfg, cl):
+    """one staple per clause of the property runs in every quick tier"""
+    short_hdr = cfg.get('hdr') is not None and cfg['hdr'] < cfg['ns']
+    return (cl[:3] == ['110000:-:-', '110001:-:-', '110101:-:-'] or cl == ['101000:-:-', '101101:-:-']
+            or cl == ['11010:-:-', '11000:-:-'] or cl[:1] == ['11100:-:0@0'] or cl[:1] == ['11100:-:1@1199']
+            or (short_hdr and cfg['hdr'] == 1200 and not cfg.get('trail') and cfg['orig'] == 'bin')
+            or (cfg.get('trail') == 77 and cfg['kind'] == 'np21')
+            or cl[0].endswith(':sppip') or cl == ['11100:s1:-', '11100:-:-', '11110:-:-'])
 
 
 def staple_histories(ov):
@@ -1004,6 +1088,17 @@ def staple_histories(ov):
         if kind == 'np24':      # the object that deleted the original is asked again, with overwrite: status 0, nothing touched
             out.append((base, ['101000:-:-', '101101:-:-']))
             out.append((base, ['111000:-:-', '111001:-:-', '111101:-:-']))
+    # header not finalised / copy interrupted / trailing partial frame: verify-and-delete must cover every frame on disk
+    for kind, n in (('np24', 2), ('np21', 1)):
+        for hdr, trail in ((1200, 0), (750, 0), (1499, 0), (1501, 0), (3000, 0), (1500, 77), (1200, 1)):
+            b = dict(kind=kind, n=n, ns=1500, w=1200, ov=ov, orig='bin', hdr=hdr, trail=trail)
+            out.append((b, ['101000:-:-', '111100:-:-'] if kind == 'np24' else ['010000:-:-', '110100:-:-', '100100:-:-']))
+            if not trail:
+                out.append((dict(b, orig='cbin'), ['111000:-:-']))
+    # the same calls in other spellings
+    for form in ('sppip', 'PkkIk', 'Pkpjk', 'skkfp', 'PpkFk', 'Pkkxk'):
+        out.append((dict(kind='np24', n=2, ns=1500, w=1200, ov=ov, orig='bin'), [f'110000:-:-:{form}', f'110001:-:-:{form}', f'111100:-:-:{form}']))
+        out.append((dict(kind='np21', n=1, ns=1500, w=1200, ov=ov, orig='bin'), [f'010000:-:-:{form}', f'010100:-:-:{form}']))
     # known finding partial-folders-rerun: only some expected folders exist (model and code agree on what happens)
     out.append((dict(kind='np24', n=2, ns=1500, w=1200, ov=ov, orig='bin@1'), ['11000:-:-', '11000:-:-', '11010:-:-']))
     out.append((dict(kind='np24', n=3, ns=1500, w=1200, ov=ov, orig='cbin@2'), ['00100:s1:-', '11110:-:-']))
@@ -1057,7 +1152,7 @@ def exhaustive_single_calls(ov):
 # ---------------------------------------------------------------------------------------------
 def _fails(cfg, call_toks):
     """index of the first call at which the oracle fails, with the verdict; None when the history is fine"""
-    rec = Rec.get(cfg['kind'], cfg['n'], cfg['ns'], cfg['w'], cfg['ov'])
+    rec = Rec.of(cfg)
     try:
         _, toks, ver = run_history(rec, cfg['orig'], calls=[parse_call(c) for c in call_toks])
     except Exception as e:
@@ -1081,7 +1176,7 @@ def _shrink(cfg, call_toks):
             if _fails(cfg, cand) is not None:
                 call_toks, changed = cand, True
                 break
-    for change in (dict(ns=1500, w=1200), dict(n=2), dict(n=1), dict(orig='bin')):
+    for change in (dict(hdr=None), dict(trail=0), dict(ns=1500, w=1200), dict(n=2), dict(n=1), dict(orig='bin')):
         small = dict(cfg, **change)
         if cfg['kind'] != 'np24' and 'n' in change:
             continue
@@ -1106,8 +1201,26 @@ def _same_object_sequences(ov):
                 yield cfg, [f'{b}000:{p}:-', f'{b}001:-:-']
 
 
+def _header_variants(ov):
+    for kind, n in (('np24', 2), ('np21', 1)):
+        for hdr, trail in ((1200, 0), (750, 0), (1800, 0), (1500, 77)):
+            for orig in ('bin', 'cbin'):
+                if trail and orig == 'cbin':
+                    continue
+                cfg = dict(kind=kind, n=n, ns=1500, w=1200, ov=ov, orig=orig, hdr=hdr, trail=trail)
+                for b in ('1010', '1110', '0000', '0100', '1011', '1111'):
+                    yield cfg, [f'{b}00:-:-']
+    for form in ('sppip', 'PkkIk', 'Pkpjk', 'skkfp', 'PpkFk', 'Pkkxk', 'Ppkik', 'Pkkip'):
+        for kind, n in (('np24', 2), ('np21', 1)):
+            cfg = dict(kind=kind, n=n, ns=1500, w=1200, ov=ov, orig='bin')
+            for b in ('1010', '0110', '1100', '0001'):
+                yield cfg, [f'{b}00:-:-:{form}']
+            yield cfg, [f'110000:-:-:{form}', f'110101:-:-:{form}']
+
+
 def _systematic(ov):
     """short histories around every clause of the property"""
+    yield from _header_variants(ov)
     yield from _same_object_sequences(ov)
     firsts = [[], ['11000:-:-'], ['00000:-:-'], ['11000:s1:-'], ['11000:m1:-'], ['11000:c0:-'], ['11000:c1:-'], ['01000:-:0@0']]
     for kind, n in (('np24', 2), ('np21', 1), ('np1', 1)):
@@ -1169,12 +1282,12 @@ def search(ctx, reasons):
     cfg, toks, why, states = best
     return {'input': {'cfg': cfg, 'calls': toks,
                       'legend': 'call = <post_check><compress><delete_original><overwrite><on shank file><same object again>:<interruption s/m/v/c<j> or d>:'
-                                '<shank>@<row of the AP sample altered before it is written>'},
+                                '<shank>@<row of the AP sample altered before it is written>[:<form: path P/s, ctor k/p, init_params k/p, window i/I/j/f/F/x, process k/p>]; cfg hdr = frames announced by the .meta, trail = bytes of a trailing partial frame'},
             'observed': {'violation': why, 'results_and_disk_after_each_call': states},
             'expected': 'C04: original recoverable byte for byte after every call; removed only after a passed bit-exact verification; '
                         'rerun without overwrite = no change + status 0; first / forced run without fault = status 1 + complete valid set; '
                         'NP1 -> -1, already split -> 0, both untouched',
-            'how': 'harness/props/c04.py: run_history(Rec.get(kind, n, ns, w, ov), orig, calls=[parse_call(t) for t in calls]) -> '
+            'how': 'harness/props/c04.py: run_history(Rec.of(cfg), cfg["orig"], calls=[parse_call(t) for t in calls]) -> '
                    'oracle_step after each call (NP2Converter(file, post_check, delete_original, compress).init_params(nwindow=w).process(overwrite))'}
 
 
@@ -1192,8 +1305,15 @@ def _demo_partial_folders():
         shutil.rmtree(root, ignore_errors=True)
 
 
+def _demo_np21_trailing():
+    """NP2.1 .bin with 77 trailing bytes: process() writes the lf file, then raises ValueError from mtscomp instead of returning 1"""
+    rec = Rec.get('np21', 1, 1500, 1200, 576, None, 77)
+    _, toks, _ = run_history(rec, 'bin', calls=[parse_call('010000:-:-')], oracle=False)
+    return toks[0].startswith('raise:valueError@o=bin')
+
+
 def known_findings(ctx):
-    return {'partial-folders-rerun': _demo_partial_folders}
+    return {'partial-folders-rerun': _demo_partial_folders, 'np21-trailing-bytes-compress': _demo_np21_trailing}
 
 
 def replay(ctx, rep):
